@@ -451,6 +451,21 @@ func c18RegistryExtension(c *Ctx) {
 		for step := 0; step < 1+r.Intn(5); step++ {
 			name := fmt.Sprintf("Custom%dActivation", next)
 			what := ""
+			if r.Intn(4) == 0 {
+				// a registration repeated for a code that is known already, same name (an init function that runs twice)
+				for t, nm := range known {
+					if !kinds[t] {
+						f.Register(t, func(x float64, _ []float64) float64 { return x }, nm)
+						what = "a second Register(" + nm + ") of the same code and name"
+						break
+					}
+				}
+				c.Count("registry.extensions", 1)
+				if !verify(what) {
+					return
+				}
+				continue
+			}
 			if r.Intn(2) == 0 {
 				f.Register(next, func(x float64, _ []float64) float64 { return x * 2 }, name)
 				what = "Register(" + name + ")"
